@@ -11,6 +11,11 @@ CLAIMED = {
             "Seeded search over operation histories and thread interleavings of the real LruCache/ObjectCache code; every schedule's history is checked for linearizability against a 40-line reference LRU, sequential histories op by op. Sampling, not enumeration: a clean run is evidence, not proof.",
             "Trusts shuttle's scheduler model (sequentially consistent atomics/locks) and the reference LRU as the meaning of 'least recently used'.",
             "DESIGN.md §4 C29, §3"),
+    "C01": ("exploration",
+            "deterministic simulation: seeded corpus + stored-image fault plans + fault-injecting byte source + owned clock/allocator/process boundary, every parsing preset",
+            "Seeded search over (seed image x 0-4 stored-image faults x source fault plan x clock jump) with the reader run under strict/default/tolerant/skip_errors on fresh threads in worker processes; oracles: no panic (overflow checks on), no process death (stack overflow, abort), bounded I/O steps, bounded CPU time, bounded single and live allocations. Every violation is re-executed in a fresh child process and minimised (mutation list, then byte ranges) before it is reported.",
+            "Thresholds standing for 'unbounded' are 120 s CPU, 1 GiB single allocation, 2 GiB live heap, 2e6 + 200 x length I/O calls. Images are small (<= 400 KiB). 'lenient' is an alias of 'tolerant' in the library.",
+            "DESIGN.md §4 C01, §2"),
     "C04": ("exploration",
             "deterministic simulation: seeded append-only revision histories from a synthetic writer, read back through a fault-injecting byte source after every revision and compared with a reference map",
             "Seeded search over histories of 1-6 revisions (redefine / free / re-add; xref table or stream per revision; objects plain or in object streams), every prefix opened through SimSource (fault-free and short reads at every offset) under all four presets and compared object by object with a reference map known by construction; a recovery variant damages the stored xref data so the header scan is used.",
